@@ -21,6 +21,7 @@ import multiprocessing as mp
 import os
 import random
 import re
+import threading
 from concurrent.futures import ThreadPoolExecutor
 
 from . import known, tlc
@@ -231,9 +232,53 @@ def _prep(dense):
     return c02drv
 
 
+SHORT = {"K": "K"}
+
+
+def _short(decisions):
+    """Decision list -> compact string: T1 -> "1", K -> "K"."""
+    return "".join(d[1:] if d.startswith("T") else d for d in decisions)
+
+
+def _long(dec):
+    return ["K" if ch == "K" else "T" + ch for ch in dec]
+
+
 def _summ(cfg, r, kind):
     return {"cfg": cfg, "kind": kind, "decisions": r["decisions"], "events": r["events"], "deadlock": r["deadlock"],
             "pre": r["preemptions"], "stuck": r["stuck"]}
+
+
+def _finish(ci, runs, dense):
+    """Stage 4 inside the worker: validate the traces of this task with one TLC batch and return compact
+    records (the event lists stay in the worker except for failing traces and a sample)."""
+    if not runs:
+        return []
+    groups = collections.defaultdict(list)
+    for i, s in enumerate(runs):
+        groups[group_key(s["cfg"])].append({"id": i, "events": s["events"]})
+    verdicts = {}
+    for gk, trs in sorted(groups.items()):
+        vs, _ = validate_group((gk, trs))
+        for x in vs:
+            verdicts[x[0]] = x[1:]
+    if len(verdicts) != len(runs):
+        raise tlc.MachineryError(f"trace validation returned {len(verdicts)} verdicts for {len(runs)} traces")
+    out, kept = [], 0
+    for i, s in enumerate(runs):
+        v = verdicts[i]
+        ev = s["events"]
+        rec = {"ci": ci, "cfg": s["cfg"] if s["kind"] == "directed" else None, "kind": s["kind"], "dec": _short(s["decisions"]),
+               "pre": s["pre"], "deadlock": s["deadlock"], "stuck": s["stuck"], "v": v, "nev": len(ev), "dense": dense,
+               "cpe": any(e["e"] == "end" and e["out"] == "ClosedPoolError" for e in ev), "late": _late_put(ev),
+               "mismatch": s.get("mismatch"), "events": None, "ordering": None}
+        if (v[1] != "ok" or (s["pre"] >= 2 and s["cfg"]["closer"])) and kept < 3:
+            kept += 1
+            rec["events"] = [{k: x for k, x in e.items() if x not in (0, "", [])} for e in ev]
+        if s["kind"] == "directed" and i < 2:
+            rec["ordering"] = s["ordering"]
+        out.append(rec)
+    return out
 
 
 def _prefix_preemptions(dec, en, upto):
@@ -261,16 +306,16 @@ def _children(prefix_len, r, bound):
 
 
 def _dfs_task(args):
-    """Explore the subtree below `prefix` (bounded preemptions) on the real code."""
-    cfg, prefix, bound, limit, dense = args
+    """Explore the subtrees below `prefixes` (bounded preemptions) on the real code; validate; compact."""
+    ci, cfg, prefixes, bound, limit, dense = args
     drv = _prep(dense)
     from . import sched
-    stack = [list(prefix)]
+    stack = [list(p) for p in reversed(prefixes)]
     runs = []
-    truncated = False
+    truncated = 0
     while stack:
         if len(runs) >= limit:
-            truncated = True
+            truncated = len(stack)
             break
         p = stack.pop()
         ch = sched.PrefixChooser(p)
@@ -279,19 +324,20 @@ def _dfs_task(args):
             raise tlc.MachineryError(f"C02 DFS: schedule prefix {p} is not reproducible (non-determinism in the harness)")
         runs.append(_summ(cfg, r, "dfs"))
         stack.extend(_children(len(p), r, bound))
-    return {"runs": runs, "truncated": truncated}
+    return {"runs": _finish(ci, runs, dense), "truncated": truncated}
 
 
 def _root_task(args):
-    cfg, bound, dense = args
+    ci, cfg, bound, dense = args
     drv = _prep(dense)
     from . import sched
     r = drv.one_run(cfg, sched.PrefixChooser([]))
-    return {"run": _summ(cfg, r, "dfs"), "children": _children(0, r, bound), "points": _PREPARED["points"]}
+    return {"runs": _finish(ci, [_summ(cfg, r, "dfs")], dense), "children": _children(0, r, bound),
+            "points": _PREPARED["points"]}
 
 
 def _random_task(args):
-    cfg, seed, n, dense = args
+    ci, cfg, seed, n, dense = args
     drv = _prep(dense)
     from . import sched
     rng = random.Random(seed)
@@ -299,14 +345,24 @@ def _random_task(args):
     for _ in range(n):
         r = drv.one_run(cfg, sched.RandomChooser(rng, rng.choice([0.15, 0.35, 0.6])))
         runs.append(_summ(cfg, r, "random"))
-    return {"runs": runs, "truncated": False}
+    return {"runs": _finish(ci, runs, dense), "truncated": 0}
+
+
+def _dfs_jobs(ci, cfg, children, bound, budget, dense, chunk=1200):
+    """Partition the root's child subtrees into tasks of about `chunk` schedules; the per-configuration
+    budget is shared evenly (a task that hits its share reports how many subtrees it left unexplored)."""
+    if not children:
+        return []
+    n = max(1, min(len(children), -(-budget // chunk)))
+    per = max(20, budget // n)
+    return [(ci, cfg, children[j::n], bound, per, dense) for j in range(n)]
 
 
 CRITICAL = ("test", "load", "qget", "qput", "swap")
 
 
 def _directed_task(args):
-    cfg, ords = args
+    ci, cfg, ords = args
     drv = _prep(False)
     from . import sched
     runs = []
@@ -332,7 +388,7 @@ def _directed_task(args):
         s["mismatch"] = mism
         s["ordering"] = o
         runs.append(s)
-    return {"runs": runs, "truncated": False}
+    return {"runs": _finish(ci, runs, False), "truncated": 0}
 
 
 # ------------------------------------------------------------------------------------------ stage 2
@@ -409,58 +465,38 @@ def validate_group(args):
     return [(x[0], x[1], x[2], x[3], x[4]) for x in v], r.distinct
 
 
-def validate_all(pool, runs):
-    """runs: list of summaries with 'events'.  Returns verdict per run index."""
-    groups = collections.defaultdict(list)
-    for i, s in enumerate(runs):
-        groups[group_key(s["cfg"])].append({"id": i, "events": s["events"]})
-    jobs = []
-    for gk, trs in sorted(groups.items()):
-        for j in range(0, len(trs), 4000):
-            jobs.append((gk, trs[j:j + 4000]))
-    verdicts = {}
-    with ThreadPoolExecutor(JVMS) as ex:
-        for vs, _ in ex.map(validate_group, jobs):
-            for i, pos, clause, cls, drift in vs:
-                verdicts[i] = (pos, clause, cls, drift)
-    if len(verdicts) != len(runs):
-        raise tlc.MachineryError(f"trace validation returned {len(verdicts)} verdicts for {len(runs)} runs")
-    return verdicts
-
-
 # ---------------------------------------------------------------------------------------------- run
 
-def _case(s, dense):
-    return {"kind": "schedule", "cfg": s["cfg"], "decisions": s["decisions"], "dense": dense, "source": s["kind"]}
+def _case(rec, cfg):
+    return {"kind": "schedule", "cfg": cfg, "decisions": _long(rec["dec"]), "dense": bool(rec["dense"]), "source": rec["kind"]}
 
 
-def judge(rep, findings, runs, verdicts, dense):
+def judge(rep, findings, recs, cfgs):
     tallies = collections.Counter()
-    for i, s in enumerate(runs):
-        pos, clause, cls, drift = verdicts[i]
+    for rec in recs:
+        cfg = rec["cfg"] or cfgs[rec["ci"]]
+        pos, clause, cls, drift = rec["v"]
         tallies[clause] += 1
-        key = cfg_key(s["cfg"])
-        if s["pre"] > 0 or s["deadlock"]:
-            rep.nontrivial.add((key, tuple(s["decisions"])))
+        key = cfg_key(cfg)
+        if rec["pre"] > 0 or rec["deadlock"]:
+            rep.nontrivial.add((key, rec["dec"], rec["dense"]))
         if drift != "-":
-            rep.drift.append(f"{drift} at cfg {key} schedule {''.join(d[-1] for d in s['decisions'])}")
-        if s.get("mismatch"):
-            rep.drift.append(f"directed replay: {s['mismatch']} (cfg {key})")
+            rep.drift.append(f"{drift} at cfg {key} schedule {rec['dec']}")
+        if rec.get("mismatch"):
+            rep.drift.append(f"directed replay: {rec['mismatch']} (cfg {key})")
         if clause == "ok":
             continue
-        facts = {"clause": clause, "block": bool(s["cfg"]["block"]), "closer": bool(s["cfg"]["closer"]),
+        facts = {"clause": clause, "block": bool(cfg["block"]), "closer": bool(cfg["closer"]),
                  "history": "checkout-parked-on-queue-orphaned-by-close" if cls == "D8" else "other"}
         f = known.match(findings, facts)
-        what = (f"{clause} at event {pos} of the trace; cfg {key}; schedule "
-                f"{' '.join(s['decisions'])}; stuck={s['stuck']}")
+        what = f"{clause} at event {pos} of the trace; cfg {key}; schedule {rec['dec']}; stuck={rec['stuck']}"
         if f is not None:
             rep.known.append((f["id"], f["what"]))
             tallies["known:" + f["id"]] += 1
-            if "known_sample" not in rep.extra:
-                rep.extra["known_sample"] = {"finding": f["id"], "case": _case(s, dense),
-                                             "events": [{k: v for k, v in e.items() if v not in (0, "", [])} for e in s["events"]]}
+            if "known_sample" not in rep.extra and rec["events"]:
+                rep.extra["known_sample"] = {"finding": f["id"], "case": _case(rec, cfg), "events": rec["events"]}
         else:
-            rep.violation(clause, what, _case(s, dense))
+            rep.violation(clause, what, _case(rec, cfg))
     return tallies
 
 
@@ -472,19 +508,35 @@ def run(rep):
                 "distinct_nontrivial counts distinct (configuration, decision list) pairs")
     rep.assumptions = [
         "preemption granularity: source lines that test/load/store self.pool, every queue operation (entry, i.e. "
-        "after the queue reference was loaded), socket send; bytecode-level races inside one line are not explored",
+        "after the queue reference was loaded), socket send; thorough adds every line of _get_conn/_put_conn/close/"
+        "_close_pool_connections/release_conn/_new_conn; bytecode-level races inside one line are not explored",
         "queue.LifoQueue's condition-variable internals are replaced by the scheduler-aware CoopQueue (identical "
         "non-blocking semantics; stdlib wake-up correctness is trusted)",
         "bounded: 2-3 request threads, 1-2 requests each, at most one failing attempt per request, "
-        "preemption bound 2 (quick) / 3 (thorough) for the DFS; random schedules are unbounded in preemptions",
+        "preemption bound 2 (quick) / 3 (thorough) for the DFS with a per-configuration schedule budget; "
+        "random schedules are unbounded in preemptions",
         "TLC 1.8 and CPython 3.12 sys.monitoring are trusted"]
-    stage1(rep, quick)
-
     bound = 2 if quick else 3
+    budget = 2500 if quick else 12000        # DFS schedules per configuration
     cfgs = configurations(quick, rep.seed)
-    all_runs = []
+    recs = []
     trunc = 0
+    s1 = {}
+
+    def _s1():
+        try:
+            stage1(rep, quick)
+        except BaseException as ex:      # re-raised in the main thread below
+            s1["error"] = ex
+
     with mp.Pool(J) as pool:
+        # stage 1 (JVMs) runs next to the schedule exploration (Python processes); the process pool
+        # is forked before the thread starts
+        th = threading.Thread(target=_s1, name="stage1")
+        if os.environ.get("C02_SKIP_STAGE1") != "1":     # development aid for mutation runs: such a run can never pass
+            th.start()
+        else:
+            rep.extra["stage1_skipped"] = True
         # stage 2: orderings emitted by TLC (2 threads x 1 request, with / without closer)
         ekws = [dict(nt=2, closer=closer, m=1, block=block, reqs=1, stream=False, outcomes=("ok", "fail"))
                 for closer in (False, True) for block in (True, False)]
@@ -507,81 +559,83 @@ def run(rep):
             n_selected += len(sel)
             cfg = dict(maxsize=kw["m"], block=kw["block"], closer=kw["closer"], stream=kw["stream"], nthreads=kw["nt"],
                        reqs=kw["reqs"], script={}, retries=1)
-            for j in range(0, len(sel), 50):
-                djobs.append((cfg, sel[j:j + 50]))
-        # stage 3: DFS roots -> subtree tasks, random deep schedules
-        roots = pool.map(_root_task, [(c, bound, False) for c in cfgs])
-        rep.extra["preemption_points"] = roots[0]["points"]
-        if not any("swap" in d.values() for d in roots[0]["points"].values()) or \
-           sum(1 for d in roots[0]["points"].values() for k in d.values() if k in ("test", "load")) < 4:
-            raise tlc.MachineryError(f"AST selection found too few shared-state lines: {roots[0]['points']}")
+            for j in range(0, len(sel), 125):
+                djobs.append((-1, cfg, sel[j:j + 125]))
+        # stage 3: DFS roots -> subtree tasks, random deep schedules (each task validates its own traces: stage 4)
+        roots = pool.map(_root_task, [(ci, c, bound, False) for ci, c in enumerate(cfgs)])
+        points = roots[0]["points"]
+        rep.extra["preemption_points"] = points
+        kinds = [k for d in points.values() for k in d.values()]
+        if "swap" not in kinds or sum(1 for k in kinds if k in ("test", "load")) < 4:
+            raise tlc.MachineryError(f"AST selection found too few shared-state lines: {points}")
         tasks = []
-        limit = 400 if quick else 6000
-        for c, root in zip(cfgs, roots):
-            all_runs.append(root["run"])
-            for ch in root["children"]:
-                tasks.append((c, ch, bound, limit, False))
-        nrand = 40 if quick else 600
-        rtasks = [(c, rep.seed * 100003 + i, nrand, False) for i, c in enumerate(cfgs)]
-        for out in pool.imap(_dfs_task, tasks, chunksize=4):
-            all_runs.extend(out["runs"])
+        for ci, (c, root) in enumerate(zip(cfgs, roots)):
+            recs.extend(root["runs"])
+            tasks += _dfs_jobs(ci, c, root["children"], bound, budget, False)
+        nrand = 40 if quick else 1500
+        rtasks = [(ci, c, rep.seed * 100003 + ci, nrand, False) for ci, c in enumerate(cfgs)]
+        for out in pool.imap_unordered(_dfs_task, tasks):
+            recs.extend(out["runs"])
             trunc += out["truncated"]
-        n_dfs = len(all_runs)
-        for out in pool.imap(_random_task, rtasks):
-            all_runs.extend(out["runs"])
-        n_rand = len(all_runs) - n_dfs
-        n_dir0 = len(all_runs)
-        for out in pool.imap(_directed_task, djobs):
-            all_runs.extend(out["runs"])
-        n_dir = len(all_runs) - n_dir0
-        if n_dir != n_selected:
-            raise tlc.MachineryError(f"stage 2: {n_selected} orderings selected but {n_dir} replayed")
-        dense_runs = []
-        if not quick:
-            # every line of the pool functions is a preemption point (dense), bound 2
-            dcfgs = [c for c in cfgs if c["nthreads"] == 2]
-            droots = pool.map(_root_task, [(c, 2, True) for c in dcfgs])
+        for out in pool.imap_unordered(_random_task, rtasks):
+            recs.extend(out["runs"])
+        for out in pool.imap_unordered(_directed_task, djobs):
+            recs.extend(out["runs"])
+        if th.ident is not None:
+            th.join()
+    if not quick:
+        dcfgs = [(ci, c) for ci, c in enumerate(cfgs) if c["nthreads"] == 2]
+        with mp.Pool(J) as pool:
+            droots = pool.map(_root_task, [(ci, c, 2, True) for ci, c in dcfgs])
+            rep.extra["preemption_points_dense"] = droots[0]["points"]
             dtasks = []
-            for c, root in zip(dcfgs, droots):
-                dense_runs.append(root["run"])
-                dtasks += [(c, ch, 2, 1500, True) for ch in root["children"]]
-            for out in pool.imap(_dfs_task, dtasks, chunksize=4):
-                dense_runs.extend(out["runs"])
+            for (ci, c), root in zip(dcfgs, droots):
+                recs.extend(root["runs"])
+                dtasks += _dfs_jobs(ci, c, root["children"], 2, 6000, True)
+            for out in pool.imap_unordered(_dfs_task, dtasks):
+                recs.extend(out["runs"])
                 trunc += out["truncated"]
-            for out in pool.imap(_random_task, [(c, rep.seed * 7 + i, 200, True) for i, c in enumerate(dcfgs)]):
-                dense_runs.extend(out["runs"])
-        # stage 4: every executed schedule goes through TLC
-        verdicts = validate_all(pool, all_runs)
-        dverdicts = validate_all(pool, dense_runs) if dense_runs else {}
-    tallies = judge(rep, findings, all_runs, verdicts, False)
-    tallies.update(judge(rep, findings, dense_runs, dverdicts, True))
-    rep.traces = len(all_runs) + len(dense_runs)
-    rep.evaluations = rep.traces
-    realised = sum(1 for s in all_runs if s["kind"] == "directed" and not s.get("mismatch"))
+            for out in pool.imap_unordered(_random_task, [(ci, c, rep.seed * 7 + ci, 400, True) for ci, c in dcfgs]):
+                recs.extend(out["runs"])
+    if "error" in s1:
+        raise s1["error"]
+    recs.sort(key=lambda r: (r["dense"], r["ci"], r["kind"], r["dec"]))       # deterministic order whatever the pool did
+    tallies = judge(rep, findings, recs, cfgs)
+    by = collections.Counter((r["kind"], r["dense"]) for r in recs)
+    n_dfs, n_rand, n_dir = by[("dfs", False)], by[("random", False)], by[("directed", False)]
+    if n_dir != n_selected:
+        raise tlc.MachineryError(f"stage 2: {n_selected} orderings selected but {n_dir} replayed")
+    rep.traces = rep.evaluations = len(recs)
+    realised = sum(1 for r in recs if r["kind"] == "directed" and not r.get("mismatch"))
     rep.extra.update({
-        "schedules_dfs": n_dfs, "schedules_random": n_rand, "schedules_directed": n_dir, "schedules_dense": len(dense_runs),
+        "schedules_dfs": n_dfs, "schedules_random": n_rand, "schedules_directed": n_dir,
+        "schedules_dense": by[("dfs", True)] + by[("random", True)],
         "orderings_emitted": n_emitted, "ordering_classes": n_classes, "orderings_replayed": n_dir,
-        "orderings_realised": realised, "dfs_subtrees_truncated": trunc, "preemption_bound": bound,
+        "orderings_realised": realised, "dfs_subtrees_not_explored": trunc, "preemption_bound": bound,
+        "dfs_budget_per_configuration": budget,
         "configurations": [cfg_key(c) for c in cfgs], "verdict_tallies": dict(tallies),
-        "trace_events": sum(len(s["events"]) for s in all_runs) + sum(len(s["events"]) for s in dense_runs),
-        "deadlocks_seen": sum(1 for s in all_runs + dense_runs if s["deadlock"]),
+        "trace_events": sum(r["nev"] for r in recs), "deadlocks_seen": sum(1 for r in recs if r["deadlock"]),
     })
     if n_dfs < len(cfgs) * 10 or n_dir == 0 or n_rand == 0:
         raise tlc.MachineryError(f"too few schedules executed: dfs={n_dfs} random={n_rand} directed={n_dir}")
-    closed = sum(1 for s in all_runs if any(e["e"] == "end" and e["out"] == "ClosedPoolError" for e in s["events"]))
-    orphan = sum(1 for s in all_runs if _late_put(s["events"]))
+    closed = sum(1 for r in recs if r["cpe"])
+    orphan = sum(1 for r in recs if r["late"])
     rep.extra["schedules_with_ClosedPoolError"] = closed
     rep.extra["schedules_with_put_into_orphaned_queue"] = orphan
     if closed == 0 or orphan == 0:
         raise tlc.MachineryError(f"the close() races were never exercised (ClosedPoolError runs={closed}, late puts={orphan})")
-    for s in all_runs:
-        if s["pre"] >= 2 and s["cfg"]["closer"]:
-            rep.sample({"cfg": cfg_key(s["cfg"]), "schedule": " ".join(s["decisions"]),
-                        "events": [{k: v for k, v in e.items() if v not in (0, "", [])} for e in s["events"]][:40]}, cap=2)
-    for s in all_runs:
-        if s["kind"] == "directed":
-            rep.sample({"model_ordering": s["ordering"], "realised": not s.get("mismatch")}, cap=4)
+    for r in recs:
+        if r["events"] and r["v"][1] == "ok":
+            rep.sample({"cfg": cfg_key(r["cfg"] or cfgs[r["ci"]]), "schedule": r["dec"], "events": r["events"][:40]}, cap=2)
+    for r in recs:
+        if r["ordering"]:
+            rep.sample({"model_ordering": r["ordering"], "realised": not r.get("mismatch")}, cap=4)
     rep.exhaustive = trunc == 0
+    if rep.extra.get("stage1_skipped"):
+        rep.states = rep.transitions = 0
+        rep.assumptions.append("STAGE 1 WAS SKIPPED (C02_SKIP_STAGE1=1): this run is not a complete check")
+        if not rep.violations:
+            raise tlc.MachineryError("stage 1 was skipped (C02_SKIP_STAGE1=1): such a run can only report violations, never pass")
 
 
 def _late_put(events):
@@ -605,14 +659,13 @@ def replay(rep, path):
     if case.get("kind") != "schedule":
         stage1(rep, True)
         return
-    drv = _prep(bool(case.get("dense")))
+    dense = bool(case.get("dense"))
+    drv = _prep(dense)
     from . import sched
     ch = sched.PrefixChooser(case["decisions"])
     r = drv.one_run(case["cfg"], ch)
-    s = _summ(case["cfg"], r, "replay")
-    vs, _ = validate_group((group_key(case["cfg"]), [{"id": 0, "events": s["events"]}]))
+    recs = _finish(0, [_summ(case["cfg"], r, "replay")], dense)
     rep.traces = rep.evaluations = 1
-    verdicts = {0: vs[0][1:]}
-    judge(rep, known.load("C02"), [s], verdicts, bool(case.get("dense")))
+    judge(rep, known.load("C02"), recs, [case["cfg"]])
     if ch.diverged:
         rep.drift.append("replay: the recorded schedule could not be followed exactly on the current tree")
